@@ -151,5 +151,38 @@ theorem reversed_canonical_good (env : Env) (name : String) (cop : COp) (hc : co
     exfalso
     rcases hname with rfl | rfl <;> simp at hpv
 
+/-- what the guard of `_merge_single_markers` (after the `fix:`es for D35 and D40) guarantees about the operand of a
+    comparison atom on a version variable: no `,`, no `|`, and not the `<empty>` keyword — operator and operand cannot
+    spell a specifier EXPRESSION -/
+theorem exactView_guards (a : Atom) (hn : versionLikeNames.contains a.name = true)
+    (hop : a.op ≠ .in_ ∧ a.op ≠ .notIn) (h : a.exactView = true) :
+    ',' ∉ a.value.toList ∧ '|' ∉ a.value.toList ∧ ¬ (a.op = .lt ∧ a.value.toList = ['e', 'm', 'p', 't', 'y', '>']) := by
+  unfold Atom.exactView at h
+  have h1 : (versionEvalNames.contains a.name && !versionLikeNames.contains a.name) = false := by
+    rw [hn]; simp
+  have h2 : (!versionLikeNames.contains a.name) = false := by rw [hn]; rfl
+  have hopb : (a.op != .in_ && a.op != .notIn) = true := by
+    simp only [Bool.and_eq_true, bne_iff_ne, ne_eq]; exact hop
+  rw [if_neg (by rw [h1]; simp), if_neg (by rw [h2]; simp), hopb, Bool.true_and] at h
+  by_cases hc : (a.value.toList.contains ',' || a.value.toList.contains '|') = true
+  · rw [if_pos hc] at h; cases h
+  · rw [if_neg hc] at h
+    have hc' : (a.value.toList.contains ',' || a.value.toList.contains '|') = false := by simpa using hc
+    simp only [Bool.or_eq_false_iff, List.contains_eq_mem, decide_eq_false_iff_not] at hc'
+    refine ⟨hc'.1, hc'.2, ?_⟩
+    rintro ⟨ho, hv⟩
+    have hk : (a.op == MOp.lt && a.value.toList == ['e', 'm', 'p', 't', 'y', '>']) = true := by
+      rw [ho, hv]; rfl
+    rw [if_pos hk] at h; cases h
+
+/-- **the guard is sufficient for forward atoms too**: a comparison atom on a version variable that passes the guard,
+    whose operand has no blank and whose text `op + operand` is a clause, lexes as exactly ONE clause (`LexOne`, the
+    hypothesis of `coherent_plain` that defects D35 and D40 fell outside of) -/
+theorem guard_lexOne (a : Atom) (c : Clause Ver) (hn : versionLikeNames.contains a.name = true)
+    (hop : a.op ≠ .in_ ∧ a.op ≠ .notIn) (h : a.exactView = true) (hb : ' ' ∉ a.value.toList)
+    (hp : SpecParse.parseClauseL (a.op.str.toList ++ a.value.toList) = some c) : LexOne a c := by
+  obtain ⟨h1, h2, _⟩ := exactView_guards a hn hop h
+  exact lexOne_of_clean a c hop ⟨h1, h2, hb⟩ hp
+
 end C11
 end DepLogic
